@@ -971,6 +971,11 @@ func modelMember(recv rv, member string, args []rv) expect {
 			return noCrash("rendering of objects is map-ordered / serialisation belongs to C13")
 		}
 	case "obj":
+		// a data field wins over a builtin member of the same name: the analyzer offers the member
+		// with the type of the field
+		if x, ok := recv.M[member]; ok {
+			return val(x, same)
+		}
 		switch member {
 		case "keys":
 			out := rv{K: "list", L: []rv{}}
@@ -1036,6 +1041,38 @@ func modelIndex(recv rv, idx rv) expect {
 		return interrupt(same)
 	}
 	return noCrash("not indexable in the model")
+}
+
+// modelAssign gives the expectation of `recv.field = v; recv.field`: the value reads back and the
+// receiver holds it under that field, everything else unchanged.
+func modelAssign(recv rv, field string, v rv) expect {
+	if _, ok := recv.M[field]; !ok || recv.K != "obj" {
+		return noCrash("not a data field in the model")
+	}
+	after := recv.clone()
+	after.M[field] = v.clone()
+	return val(v, after)
+}
+
+// modelIndexSet gives the expectation of `recv[idx] = v; recv[idx]`: same index rules as reading.
+func modelIndexSet(recv rv, idx rv, v rv) expect {
+	same := recv.clone()
+	switch recv.K {
+	case "list":
+		i, ok := wrapIndex(idx.I, len(recv.L), false)
+		if !ok {
+			return interrupt(same)
+		}
+		same.L[i] = v.clone()
+		return val(v, same)
+	case "obj":
+		if _, ok := recv.M[idx.S]; ok {
+			same.M[idx.S] = v.clone()
+			return val(v, same)
+		}
+		return interrupt(same)
+	}
+	return noCrash("not index-assignable in the model")
 }
 
 // modelArrow gives the expected result of recv->key on an any-object.
